@@ -10,6 +10,7 @@ All values are exact: a float is (-1)^neg · num / den.  Theorems quantify over 
 (all naturals, in particular all 2^32 words) and every type.
 -/
 import AgVerif.Proof.ResValue
+import AgVerif.Proof.PyResValue
 namespace AgVerif.C27
 open AgVerif.ResValue AgVerif.Spec.ResValue AgVerif.Gen.ResValues
 
@@ -264,5 +265,25 @@ example : formatValue (fun _ => "") TYPE_INT_DEC 0xFFFFFFFF = .ok "-1" := by rfl
 example : isFramework 0x01020002 ∧ ¬ isFramework 0x7F020002 := by unfold isFramework; omega
 example : binary32 0x3F800000 = some (false, 2 ^ 23, 2 ^ 23) := by decide
 example : formatValue (fun _ => "") TYPE_FLOAT 0xBF800000 = .ok "-1.000000" := by rfl
+
+/-! ### the source, translated, is the model
+AgVerif.Gen.PyResValue.complexToFloat is generated on each run from the Python source by
+gen/py2lean.py (statement by statement).  Floating point is not interpreted by the translator:
+the function returns the symbolic product `float(mantissa) * RADIX_MULTS[index]`. -/
+
+/-- The integer part of `complexToFloat` as translated from the source (mask 0xFFFFFF00, sign test
+    0x80000000, correction by 2^32, radix index `(x >> 4) & 3`) is the model's, for every word. -/
+theorem gen_complexToFloat_eq (x : Nat) :
+    Gen.PyResValue.complexToFloat (x : Int)
+      = some ⟨"RADIX_MULTS", signedMantissa x, (((x >>> 4) &&& 3 : Nat) : Int)⟩ :=
+  PyResValue.gen_complexToFloat_eq x
+
+/-- The model's `complexToFloat` is the translated source followed by the interpretation of the
+    symbolic product through the RADIX table generated from the source (`PyResValue.interp`). -/
+theorem src_complexToFloat (x : Nat) :
+    (Gen.PyResValue.complexToFloat (x : Int)).bind PyResValue.interp = complexToFloat x := by
+  rw [gen_complexToFloat_eq, PyResValue.complexToFloat_interp]; rfl
+
+example : Gen.PyResValue.complexToFloat 0xFFFFFF31 = some ⟨"RADIX_MULTS", -256, 3⟩ := by decide
 
 end AgVerif.C27
